@@ -239,7 +239,8 @@ pub fn suite_builder(ctx: &Ctx, thorough: bool) {
     for s in strs { ops.push(Op::Ns(s)); ops.push(Op::Name(s)); ops.push(Op::Ver(s)); ops.push(Op::Sub(s)); }
     for t in ["t", "T+1", "bad type", ""] { ops.push(Op::Ty(t)); }
     for k in ["k", "K", "b.c", "bad key", ""] { for v in ["", "v", "a&b=c"] { ops.push(Op::Q(k, v)); } ops.push(Op::NoQ(k)); }
-    ops.push(Op::Q("checksum", "SHA1:AB")); ops.push(Op::Q("checksum", "sha1:xyz"));
+    ops.push(Op::Q("checksum", "SHA1:AB")); ops.push(Op::Q("checksum", "sha1:xyz")); ops.push(Op::Q("checksum", "")); ops.push(Op::Q("CheckSum", ""));
+    ops.push(Op::NoQ("CHECKSUM"));
     let len = if thorough { 3 } else { 2 };
     let n = ops.len();
     let total = (1..=len).map(|l| n.pow(l as u32)).sum::<usize>();
